@@ -15,7 +15,7 @@ import z3
 
 from pyvc.core import (SV, SBool, SInt, SSeq, SDict, Obj, Val, VNone, BoolS, IntS, Cls, to_val, to_int, to_bool_term, cls_of, sub,
                        cls_const, class_axioms, Stub, PyRaise, Unsupported)
-from pyvc.driver import Ob
+from pyvc.driver import Ob, cover_hyps
 from pyvc.ground import Q
 from pyvc.stmt import LoopSpec
 from pyvc.env import _MISSING
@@ -458,7 +458,7 @@ def obligations(chk):
         chk.add(Ob(func, names[4], pid, hy + [z3.Select(row, x)], z3.Or(z3.And(z3.Select(cyc, x), z3.Not(z3.Select(proc, x))), cert(rank_x, p, x))))
     if n_exit == 0:
         chk.errors.append("get_type_graph: no exit path explored")
-    chk.add(Ob(func, "cover", "pre", results[0][0].hyps, z3.BoolVal(True), expect="sat"))
+    chk.add(Ob(func, "cover", "pre", cover_hyps(results), z3.BoolVal(True), expect="sat"))
     chk.trusted.update(I.assumed_used)
     chk.extra_coverage["get_type_graph_paths"] = len(results)
 
@@ -550,7 +550,7 @@ def level_obligations(chk):
         chk.add(Ob(func, names[1], pid, hy + inr, z3.And(z3.BoolVal(ok_shape), var_i == z3.If(i < n_args(t), VNone, hint_name(t, b, i - n_args(t))))))
         chk.add(Ob(func, names[2], pid, hy, z3.BoolVal(True)))      # by construction of the stub call: exhaustive = isstructuredtype(t); a different flag changes b above
     if results:
-        chk.add(Ob(func, "cover", "pre", results[0][0].hyps, z3.BoolVal(True), expect="sat"))
+        chk.add(Ob(func, "cover", "pre", cover_hyps(results), z3.BoolVal(True), expect="sat"))
     chk.trusted.update(I.assumed_used)
 
 
@@ -577,7 +577,7 @@ def post_init_obligations(chk):
         chk.add(Ob(func, names[1], pid, hy, z3.And(to_val(f["type"]) == cur["ty"], to_val(f["var"]) == cur["var"], z3.BoolVal(f["cyclic"] is False),
                                                  z3.BoolVal(set(f) == {"type", "unwrapped", "var", "cyclic"}))))
     if results:
-        chk.add(Ob(func, "cover", "pre", results[0][0].hyps, z3.BoolVal(True), expect="sat"))
+        chk.add(Ob(func, "cover", "pre", cover_hyps(results), z3.BoolVal(True), expect="sat"))
 
 
 class GraphVal:
@@ -656,7 +656,7 @@ def order_obligations(chk):
             chk.add(Ob(func, names[0], pid, hy + [is_ref], goal_ref))
             chk.add(Ob(func, names[1], pid, hy + [z3.Not(is_ref)], goal_ty))
         if results:
-            chk.add(Ob(func, "cover", "pre", results[0][0].hyps, z3.BoolVal(True), expect="sat"))
+            chk.add(Ob(func, "cover", "pre", cover_hyps(results), z3.BoolVal(True), expect="sat"))
         chk.trusted.update(I.assumed_used)
 
 
